@@ -857,7 +857,7 @@ func c04Run(r *core.Run) {
 	if r.Thorough() {
 		r.SetBudget(10 * time.Minute)
 	}
-	r.Rule = "engine E: every presence assignment of 7 types (struct, pointer, second struct, named string, send-only channel via Set, interface I with two implementors, interface J) to 1..3 nested injectors x every target type for Value(); every signature of arity 0..2 x every 1- and 2-scope assignment for Invoke() through reflect.MakeFunc functions and hand-declared FastInvoker types; Apply() on two struct targets; registration API {Map/MapTo, Set} x {once, re-registered} x {values, typed nil pointer / nil channel in the innermost scope}; oracle = reference resolver (exact in nearest scope, else the SET of same-scope implementors, else outer); non-trivial = resolution that needs an outer scope or an implementor, or fails"
+	r.Rule = "engine E: every presence assignment of 7 types (struct, pointer, second struct, named string, send-only channel via Set, interface I with two implementors, interface J) to 1..3 nested injectors x every target type for Value(); every signature of arity 0..2 x every 1- and 2-scope assignment (thorough: and a grid of the 3-scope ones) for Invoke() through reflect.MakeFunc functions and hand-declared FastInvoker types; Apply() on two struct targets; registration API {Map/MapTo, Set} x {once, re-registered} x {values, typed nil pointer / nil channel in the innermost scope}; oracle = reference resolver (exact in nearest scope, else the SET of same-scope implementors, else outer); non-trivial = resolution that needs an outer scope or an implementor, or fails"
 	r.Assumptions = []string{"reflect.Type.Implements is trusted for the 'implements' relation", "which of several same-scope implementors is picked is free (map order): membership in the set is checked"}
 	sigs := c04Signatures()
 	r.Bounds["types"] = c04Names
@@ -919,6 +919,7 @@ func c04Run(r *core.Run) {
 	icfgs = append(icfgs, c04Configs(1, 1)...)
 	if r.Thorough() {
 		icfgs = append(icfgs, c04Configs(2, 1)...)
+		icfgs = append(icfgs, c04Configs(3, 101)...) // a grid of the three-scope assignments
 	} else {
 		icfgs = append(icfgs, c04Configs(2, 13)...)
 	}
